@@ -20,7 +20,7 @@ LEVEL_TEXT = ("Held on the executions observed: every string of length <=3 (quic
               "kvline parser and compared with the arguments. Exhaustive only for the short-string space.")
 LEVEL_NOTE = ("Trusted: vf.refs.kvline (written from control-spec/kvline.c description, self-tested), Tor's line framing "
               "modelled as 'LF ends a line'. Non-ASCII values are outside the quantifier and not generated.")
-RULE = ("a case = one set_conf(*pairs) call; distinct = the argument tuple; non-trivial = a SETCONF line was written "
+RULE = ("a case = one set_conf(*pairs) call (or, in 'queued' mode, 1-4 calls made while an earlier command is unanswered); distinct = the argument tuple; non-trivial = a SETCONF line was written "
         "and decoded (or the call was refused) and compared with the arguments")
 ASSUMPTIONS = [
     "a value containing CR or LF may either be encoded with escapes inside a quoted string or refused with an error and nothing written; both satisfy the statement",
@@ -31,7 +31,7 @@ TRUSTED_BASE = ["vf.refs.kvline", "vf.ctl.Session"]
 ANCHORS = ["txtorcon.torcontrolprotocol:TorControlProtocol.set_conf",
            "txtorcon.torcontrolprotocol:TorControlProtocol.queue_command",
            "txtorcon.torcontrolprotocol:TorControlProtocol._maybe_issue_command"]
-FLOORS = {"quick": {"evaluations": 3000, "lines_decoded": 2500,
+FLOORS = {"quick": {"evaluations": 3000, "lines_decoded": 2500, "queued_calls": 800,
                     "reach:txtorcon.torcontrolprotocol:TorControlProtocol.set_conf": 3000},
           "thorough": {"evaluations": 30000, "lines_decoded": 25000}}
 
@@ -138,6 +138,59 @@ def run_case(case, rec, sess=None):
     return s
 
 
+def run_queued(case, rec):
+    """several set_conf calls while an earlier command is still unanswered: each call must
+    still produce its own line, carrying exactly its own pairs, in call order"""
+    s = fresh_session()
+    rec.case(case)
+    if s.boot_failed:
+        rec.violation("bootstrap-failed", "bootstrap", {"exc": s.exceptions}, case)
+        return
+    before = len(s.transport.writes)
+    calls = [[tuple(p) for p in c] for c in case["calls"]]
+    icls = value_class([v for c in calls for (_, v) in c]) + "+calls-queued-behind-%s" % case["blocker"]
+    outs = []
+    try:
+        if case["blocker"] == "command":
+            s.aud.watch(s.proto.queue_command("SIGNAL NEWNYM"), "blocker")
+        elif case["blocker"] == "setconf":
+            s.aud.watch(s.proto.set_conf("ORPort", "0"), "blocker")
+        for c in calls:
+            args = []
+            for k, v in c:
+                args.extend([k, v])
+            outs.append(s.aud.watch(s.proto.set_conf(*args), "setconf"))
+    except Exception as e:
+        rec.violation("encodable-value-refused", icls, {"exc": repr(e)}, case)
+        return
+    s.run()
+    s.finish()
+    written = b"".join(x for (_, x) in s.transport.writes[before:])
+    lines = written.split(b"\r\n")
+    if lines[-1] != b"":
+        rec.violation("more-than-one-line", icls, {"written": written}, case)
+        return
+    lines = [l.decode("ascii", "replace") for l in lines[:-1]]
+    if case["blocker"] != "none":
+        lines = lines[1:]
+    rec.count("queued_calls", len(calls))
+    if len(lines) != len(calls):
+        rec.violation("not-one-line-per-call", icls, {"lines": lines, "calls": len(calls)}, case)
+        return
+    for line, c, o in zip(lines, calls, outs):
+        rec.count("lines_decoded")
+        try:
+            got = kvline.parse(line[len("SETCONF "):]) if line.startswith("SETCONF ") else None
+        except kvline.KvError as e:
+            rec.violation("does-not-parse", icls, {"line": line, "error": str(e)}, case)
+            continue
+        want = [(k, str(v)) for (k, v) in c]
+        if got is None or [(k, "" if v is None else v) for (k, v) in got] != want:
+            rec.violation("roundtrip-mismatch", icls, {"line": line, "decoded": got, "want": want}, case)
+        if o.fired != 1 or not o.ok:
+            rec.violation("call-not-resolved-by-its-own-reply", icls, {"outcome": o.describe()}, case)
+
+
 def run_shard(spec, rec):
     mode = spec["mode"]
     sess = None
@@ -186,6 +239,26 @@ def run_shard(spec, rec):
         go({"pairs": [("", "v")]})
         rec.count("unencodable_key_cases", n + 1)
         rec.enumerated("critical character x position in key x pair position")
+    elif mode == "queued":
+        for i in range(spec["n"]):
+            rnd = gen.rnd_for(spec["seed"], "C12q", spec["shard"], i)
+            calls = []
+            for _ in range(rnd.choice([1, 2, 2, 3, 3, 4])):
+                pairs = []
+                for _ in range(rnd.randint(1, 3)):
+                    r = rnd.random()
+                    if r < 0.15:
+                        v = rnd.randint(0, 70000)
+                    elif r < 0.6:
+                        v = "".join(rnd.choice(["a", " ", "\t", '"', "\\", "=", "b", "1", ","]) for _ in range(rnd.randint(0, 6)))
+                    else:
+                        v = "".join(rnd.choice(gen.PRINTABLE) for _ in range(rnd.randint(0, 30)))
+                    pairs.append((rnd.choice(KEYS[:3]) if rnd.random() < 0.6 else rnd.choice(KEYS), v))
+                calls.append(pairs)
+            case = {"calls": calls, "blocker": rnd.choice(["command", "command", "setconf", "none"]), "queued": True}
+            run_queued(case, rec)
+            if i < 2:
+                rec.sample(case)
     elif mode == "random":
         for i in range(spec["n"]):
             rnd = gen.rnd_for(spec["seed"], "C12", spec["shard"], i)
@@ -213,6 +286,8 @@ def run_shard(spec, rec):
 
 
 def replay(case, rec):
+    if case.get("queued"):
+        return run_queued(case, rec)
     run_case(case, rec)
 
 
@@ -220,9 +295,11 @@ def plan(tier, seed):
     if tier == "quick":
         sp = [{"mode": "exhaustive", "maxlen": 3, "part": i, "of": 4} for i in range(4)]
         sp += [{"mode": "keys"}]
-        sp += [{"mode": "random", "n": 700} for _ in range(10)]
+        sp += [{"mode": "random", "n": 700} for _ in range(9)]
+        sp += [{"mode": "queued", "n": 250} for _ in range(2)]
     else:
         sp = [{"mode": "exhaustive", "maxlen": 4, "part": i, "of": 8} for i in range(8)]
         sp += [{"mode": "keys"}]
         sp += [{"mode": "random", "n": 25000} for _ in range(12)]
+        sp += [{"mode": "queued", "n": 8000} for _ in range(4)]
     return sp
